@@ -6,7 +6,12 @@ C19 — (a) the interference validator that is run on every real allocation, and
 `ValueAllocator.allocate_value / allocate_values_same_reg / free_value`,
 `RegisterStack.push / pop / include_register / exclude_register` and
 `RegisterAllocatorLivenessBlockNaive.new_type_for_value / allocate_func`
-(`X86RegisterAllocator.allocate_func` is the same without the zero-register rule).
+(`X86RegisterAllocator.allocate_func` is the same without the zero-register rule);
+(c) at the end of the file, the complete `RegisterStack` of `xdsl/backend/register_stack.py` for one
+pool — `push / pop / include_register / exclude_register / reserve_register / unreserve_register`
+with the reservation counts and the `AssertionError` / `ValueError` / `OutOfRegisters` outcomes
+(`RStack`, driver model `register_stack`); `XdslProofs.C19Stack` proves its invariants and that
+(b)'s `push`/`pop` are this stack without reservations.
 -/
 namespace Xdsl.RegAlloc
 open Xdsl.RegMachine
@@ -269,5 +274,135 @@ def lineStep (s : Unit) (line : String) : Unit × String :=
       else if validate q.cfg.z (allocOf q.asg) q.prog then (s, "valid")
       else (s, "invalid interference")
   | _ => (s, "bad-op")
+
+/-! ## `RegisterStack` with reservation counts and exclusion (one pool)
+
+Registers are the indices; infinite registers (Python index `~n`) are `infBase + n` as above.
+`avail` is `available_registers[pool]` with the top of the stack (the end of the Python list) first;
+the list never holds a register twice (`XdslProofs.C19Stack.sinv_step`), so `filter (· != r)` is
+`list.remove(r)`.  `reserved` is `reserved_registers[pool]`: register ↦ reservation count, keys
+present exactly while the count is positive. -/
+
+structure RStack where
+  allocatable : List Reg := []
+  nextInf : Nat := 0
+  reserved : AL Reg Nat := []
+  avail : List Reg := []
+deriving Repr
+
+/-- `index in self.reserved_registers[pool_key]` -/
+def RStack.isReserved (s : RStack) (r : Reg) : Bool := (AL.get s.reserved r).isSome
+
+/-- the reservation count (`0` when the key is absent) -/
+def RStack.count (s : RStack) (r : Reg) : Nat := (AL.get s.reserved r).getD 0
+
+inductive SOp
+  | incl (r : Reg) | excl (r : Reg) | push (r : Reg) | pop | reserve (r : Reg) | unreserve (r : Reg)
+deriving Repr, DecidableEq
+
+inductive SOut
+  | unit | reg (r : Reg) | outOfRegisters | assertionError | valueError
+deriving Repr, DecidableEq
+
+/-- `RegisterStack.push`: reserved registers stay unavailable; a finite register outside the
+allocatable set is ignored; otherwise the register moves to the top. -/
+def spush (c : Cfg) (s : RStack) (r : Reg) : RStack :=
+  if s.isReserved r then s
+  else if !isInf c r && !s.allocatable.contains r then s
+  else { s with avail := r :: s.avail.filter (· != r) }
+
+/-- `RegisterStack.pop`: the top of the stack, else a fresh infinite register, else
+`OutOfRegisters`; the final `assert` turns a reserved result into an `AssertionError` (the stack has
+been changed by then). -/
+def spop (c : Cfg) (s : RStack) : RStack × SOut :=
+  match s.avail with
+  | r :: rest =>
+    ({ s with avail := rest }, if s.isReserved r then .assertionError else .reg r)
+  | [] =>
+    if c.allowInf then
+      ({ s with nextInf := s.nextInf + 1 },
+        if s.isReserved (c.infBase + s.nextInf) then .assertionError else .reg (c.infBase + s.nextInf))
+    else (s, .outOfRegisters)
+
+/-- `reserve_register`: `reserved[r] += 1` -/
+def sreserve (s : RStack) (r : Reg) : RStack :=
+  { s with reserved := AL.set s.reserved r (s.count r + 1) }
+
+/-- `unreserve_register`: `ValueError` for an absent key; decrement, delete the key at 0 -/
+def sunreserve (s : RStack) (r : Reg) : RStack × SOut :=
+  match AL.get s.reserved r with
+  | none => (s, .valueError)
+  | some n =>
+    if n - 1 = 0 then ({ s with reserved := AL.del s.reserved r }, .unit)
+    else ({ s with reserved := AL.set s.reserved r (n - 1) }, .unit)
+
+/-- `include_register`: add to the allocatable set, then `push` -/
+def sinclude (c : Cfg) (s : RStack) (r : Reg) : RStack :=
+  spush c { s with allocatable := if s.allocatable.contains r then s.allocatable else r :: s.allocatable } r
+
+/-- `exclude_register`: remove from the available list and from the allocatable set -/
+def sexclude (s : RStack) (r : Reg) : RStack :=
+  { s with avail := s.avail.filter (· != r), allocatable := s.allocatable.filter (· != r) }
+
+def sstep (c : Cfg) (s : RStack) : SOp → RStack × SOut
+  | .incl r => (sinclude c s r, .unit)
+  | .excl r => (sexclude s r, .unit)
+  | .push r => (spush c s r, .unit)
+  | .pop => spop c s
+  | .reserve r => (sreserve s r, .unit)
+  | .unreserve r => sunreserve s r
+
+def srun (c : Cfg) (s : RStack) : List SOp → RStack × List SOut
+  | [] => (s, [])
+  | o :: os => let (s', out) := sstep c s o; let (s'', outs) := srun c s' os; (s'', out :: outs)
+
+/-! Line protocol of driver model `register_stack` (state: configuration and a stack of `RStack`s,
+so that the harness can walk a tree of operation sequences):
+`reset <allow_infinite 0|1> <infBase>` · `dup` · `drop` · `include r` · `exclude r` · `push r` ·
+`pop` · `reserve r` · `unreserve r`; every operation answers `<result> | <state>`. -/
+
+def showRStack (s : RStack) : String :=
+  let res := (s.reserved.foldr insertSorted []).map fun kv => s!"{kv.1}:{kv.2}"
+  let alloc := (s.allocatable.foldr (fun r l => insertSorted (r, 0) l) []).map fun kv => toString kv.1
+  s!"avail={",".intercalate (s.avail.reverse.map toString)} alloc={",".intercalate alloc} " ++
+  s!"res={",".intercalate res} next={s.nextInf}"
+
+def showSOut : SOut → String
+  | .unit => "none"
+  | .reg r => s!"reg {r}"
+  | .outOfRegisters => "raise OutOfRegisters"
+  | .assertionError => "raise AssertionError"
+  | .valueError => "raise ValueError"
+
+def parseSOp : List String → Option SOp
+  | ["include", r] => r.toNat?.map .incl
+  | ["exclude", r] => r.toNat?.map .excl
+  | ["push", r] => r.toNat?.map .push
+  | ["pop"] => some .pop
+  | ["reserve", r] => r.toNat?.map .reserve
+  | ["unreserve", r] => r.toNat?.map .unreserve
+  | _ => none
+
+def stackLineStep (st : Cfg × List RStack) (line : String) : (Cfg × List RStack) × String :=
+  let (c, ss) := st
+  match words line with
+  | ["reset", inf, base] =>
+    match inf.toNat?, base.toNat? with
+    | some inf, some base => (({ z := false, allowInf := inf != 0, infBase := base }, [{}]), "ok")
+    | _, _ => (st, "bad-op")
+  | ["dup"] =>
+    match ss with
+    | s :: rest => ((c, s :: s :: rest), "ok")
+    | [] => (st, "bad-op")
+  | ["drop"] =>
+    match ss with
+    | _ :: s :: rest => ((c, s :: rest), "ok")
+    | _ => (st, "bad-op")
+  | ws =>
+    match parseSOp ws, ss with
+    | some o, s :: rest =>
+      let (s', out) := sstep c s o
+      ((c, s' :: rest), showSOut out ++ " | " ++ showRStack s')
+    | _, _ => (st, "bad-op")
 
 end Xdsl.RegAlloc
